@@ -38,8 +38,8 @@ CHECKS = {
             "The specification is checked for every interleaving of the four linearization points; the implementation is driven through every schedule of small programs by a baton scheduler on the hooked atomics/locks, through random schedules of larger programs, and free-running; acceptance of each execution by the trace specification (TLC infers the unlogged internal steps) is the oracle."),
     "C17": ("exploration", "3.7, 6/C17", "Shapes.tla Store/Output vs statement (TwoDefinitionsAgree) by TLC; TLC-enumerated (type, path, value) cases rendered to #[unimock] traits, built and run against /repo",
             "Model-derived exhaustive case generation inside a stated grammar of return types (Option/Result/Vec/Poll/tuples x owned, non-Clone, &T, &str, &'static): every variant and element count up to the bound, single-use and repeat-use paths, three calls each, address stability of borrowed leaves."),
-    "C14": ("exploration", "3.2, 6/C14", "MC_Assemble.tla (Leaves/FlatOK/PermInvariant/TypeChecks) by TLC; clause trees and inconsistent clause lists rendered as static tuples and run; builder chains type-checked by rustc against the type-state automaton",
-            "Every flat arity 2..16, nested tuples and unit clauses to depth 2, mode conflicts (either order, any distance) and empty stubs at every position with the error Assemble predicts and raised inside Unimock::new; the must-not-compile chains (at_least on ordered, then after inexact, multi-use of non-Clone) located per function in one cargo check run."),
+    "C14": ("exploration", "3.2, 6/C14", "MC_Assemble.tla (Leaves/FlatOK/PermInvariant/TypeChecks) by TLC; clause trees and inconsistent clause lists rendered as static tuples and run; builder chains type-checked by rustc against the type-state automaton; Mock.tla with HasMutexApi = FALSE replayed on the critical-section-only build",
+            "Every flat arity 2..16, nested tuples and unit clauses to depth 2, mode conflicts (either order, any distance), counted clauses incl. n_times(0) and empty stubs at every position, rejected inside Unimock::new with one of the reasons Assemble.tla Offences lists (order-independent); single-use returns of owned outputs rejected at construction when no mutex API is compiled in; the must-not-compile chains (at_least on ordered, then after inexact, multi-use of non-Clone) located per function in one cargo check run."),
     "C06": ("exploration", "3.6, 6/C06", "Matching.tla (Sem/Stmt vs generated-closure Macro, invariant MacroIsMatch, raw-splice sensitivity) by TLC; every input rendered as matching!(..) and as a plain Rust match, all argument tuples of the domain, unordered and ordered evaluation",
             "Model-derived exhaustive case generation: for every input of the bounded pattern grammar and every argument tuple of the finite domain the macro's accept/reject (diagnostics off and on) must equal the model's, and rustc's own match must agree with the model (three-way). Found and led to the fix of the unparenthesised-guard defect."),
     "C19": ("exploration", "3.6, 3.7, 6/C19", "Shapes.tla RenderArg/CallText/PatSrc and Matching.tla MismatchPositions enumerated by TLC; generated traits and scenarios per (shape, error kind); panic messages parsed structurally",
@@ -47,7 +47,7 @@ CHECKS = {
     "C05": ("exploration", "3.7, 6/C05", "Shapes.tla Forward (valid shapes and expected matcher view / answer view / write-back / return) enumerated by TLC; one generated #[unimock] trait per shape with recording matcher guard and answer, sync and async scenarios",
             "Model-derived case generation over receiver x parameter list x return kind x async form x api form x method generics with pairwise-distinct values; quick = seeded pairwise-covering subset, thorough = up to 2500 shapes; async shapes check evaluation at first poll only and not at all when dropped unpolled."),
     "C20": ("exploration", "3.7, 6/C20", "Shapes.tla Mirrors (required/provided table, BasisIsRequired) by TLC; wiring case per required method and seeded differential runs of a Unimock vs a plain struct through every upstream provided method",
-            "Every method of the mirrored core/std traits and embedded-hal DelayNs must be exercised (the driver refuses to pass otherwise): required methods answered by their own entry point, provided methods run through the upstream default body over scripted required methods in strict and partial mocks, with results, buffers and the sequence of required-method calls equal to a plain struct's."),
+            "Every method of the mirrored core/std/tokio/futures-io/embedded-hal traits (70 rows) must be exercised (the driver refuses to pass otherwise): required methods answered by their own entry point, provided methods run through the upstream default body over scripted required methods in strict and partial mocks, with results, buffers and the sequence of required-method calls equal to a plain struct's."),
 }
 
 NOT_YET = {
